@@ -42,9 +42,15 @@ type c10oWriteBack struct {
 	found    int    // tasks Find returns
 	findErr  bool   // Find fails
 	executed int
+	onAdd    func(persistedretry.Task) error // called inside Add
 }
 
-func (w *c10oWriteBack) Add(persistedretry.Task) error { return nil }
+func (w *c10oWriteBack) Add(t persistedretry.Task) error {
+	if w.onAdd != nil {
+		return w.onAdd(t)
+	}
+	return nil
+}
 func (w *c10oWriteBack) SyncExec(persistedretry.Task) error {
 	i := w.executed
 	w.executed++
@@ -188,6 +194,114 @@ func c10oOne(t *verifh.T, toks []string) {
 		"other="+verifh.Bool(otherPresent), "flag="+flag, "del="+del)
 }
 
+// C10 part 5: an upload commit over HTTP (cluster route, or the duplicate route used for replication); the
+// scripted write-back manager looks at the store at the moment the task is handed to it: the blob's persist
+// flag and what a delete request answers.
+func c10oCommit(t *verifh.T, toks []string) {
+	dup := c01oKV(toks, "dup") == "1"
+	addfail := c01oKV(toks, "addfail") == "1"
+	n, _ := strconv.Atoi(c01oKV(toks, "len"))
+	if n < 0 || n > 1<<16 {
+		n = 1
+	}
+	up, err := os.MkdirTemp("", "verifc10cup")
+	if err != nil {
+		panic(err)
+	}
+	defer os.RemoveAll(up)
+	ca, err := os.MkdirTemp("", "verifc10cca")
+	if err != nil {
+		panic(err)
+	}
+	defer os.RemoveAll(ca)
+	cas, closeCAS := store.CAStoreFixtureWithClock(store.CAStoreConfig{
+		UploadDir: up, CacheDir: ca,
+		UploadCleanup: store.CleanupConfig{Disabled: true}, CacheCleanup: store.CleanupConfig{Disabled: true},
+	}, clock.NewMock())
+	defer closeCAS()
+	data := bytes.Repeat([]byte("commit "+strings.Join(toks, " ")+"|"), n/8+1)[:n]
+	name := c01oSha(data)
+	delAnswer := func() string {
+		switch derr := cas.DeleteCacheFile(name); {
+		case derr == nil:
+			return "ok"
+		case derr == base.ErrFilePersisted:
+			return "persisted"
+		case os.IsNotExist(derr):
+			return "notexist"
+		}
+		return "fail"
+	}
+	flagNow := func() string {
+		var pm metadata.Persist
+		if merr := cas.GetCacheFileMetadata(name, &pm); merr == nil {
+			return verifh.Bool(pm.Value)
+		} else if !os.IsNotExist(merr) {
+			return "?"
+		}
+		return "-"
+	}
+	called, flagq, delq := false, "-", "-"
+	wb := &c10oWriteBack{}
+	wb.onAdd = func(task persistedretry.Task) error {
+		if !called {
+			called = true
+			flagq = flagNow()
+			delq = delAnswer()
+		}
+		if addfail {
+			return errors.New("verif: scripted Add failure")
+		}
+		return nil
+	}
+	bm := backend.ManagerFixture()
+	mg := metainfogen.Fixture(cas, 4)
+	br := blobrefresh.New(blobrefresh.Config{}, tally.NoopScope, cas, bm, mg)
+	ring := hashring.New(hashring.Config{MaxReplica: 1}, hostlist.Fixture(c01oHost), healthcheck.IdentityFilter{}, tally.NoopScope)
+	srv, err := blobserver.New(blobserver.Config{}, tally.NoopScope, clock.NewMock(), c01oHost, ring, cas, c01oClients{}, c01oClusters{},
+		core.PeerContextFixture(), bm, br, mg, wb)
+	if err != nil {
+		panic(err)
+	}
+	h := srv.Handler()
+	do := func(method, path string, hdr map[string]string, body []byte) *httptest.ResponseRecorder {
+		q := httptest.NewRequest(method, path, bytes.NewReader(body))
+		for k, v := range hdr {
+			q.Header.Set(k, v)
+		}
+		w := httptest.NewRecorder()
+		h.ServeHTTP(w, q)
+		return w
+	}
+	ubase := "/namespace/" + c01oNS + "/blobs/" + c01oDigest(name) + "/uploads"
+	if dup {
+		ubase = "/internal/blobs/" + c01oDigest(name) + "/uploads"
+	}
+	w := do("POST", ubase, nil, nil)
+	uid := w.Header().Get("Location")
+	if c01oClass(w.Code) != "ok" || uid == "" {
+		panic(fmt.Sprintf("start upload: %d %s", w.Code, w.Body.String()))
+	}
+	if n > 0 {
+		w = do("PATCH", ubase+"/"+uid, map[string]string{"Content-Range": fmt.Sprintf("0-%d", n)}, data)
+		if c01oClass(w.Code) != "ok" {
+			panic(fmt.Sprintf("patch upload: %d %s", w.Code, w.Body.String()))
+		}
+	}
+	if dup {
+		w = do("PUT", "/internal/duplicate/namespace/"+c01oNS+"/blobs/"+c01oDigest(name)+"/uploads/"+uid, nil, []byte(`{"Delay":0}`))
+	} else {
+		w = do("PUT", ubase+"/"+uid, nil, nil)
+	}
+	result := "fail"
+	if c01oClass(w.Code) == "ok" {
+		result = "ok"
+	}
+	_, serr := cas.GetCacheFileStat(name)
+	t.One(append([]string{"commit"}, toks...), result, "called="+verifh.Bool(called), "flagq="+flagq, "delq="+delq,
+		"flag="+flagNow(), "present="+verifh.Bool(serr == nil))
+}
+
 func TestVerif_C10Force(t *testing.T) {
 	tr := verifh.Open("forceclean")
 	defer tr.Close()
@@ -201,10 +315,29 @@ func TestVerif_C10Force(t *testing.T) {
 				}
 				tr.Count("corpus_or_replay_cases", 1)
 			}
+			if len(op) >= 2 && op[0] == "one" && op[1] == "commit" {
+				op := op
+				if p := verifh.Protect(func() { c10oCommit(tr, op[2:]) }); p != "" {
+					tr.PropFail("panic", verifh.Str(p))
+				}
+				tr.Count("corpus_or_replay_cases", 1)
+			}
 		}
 	}
 	if replayOnly {
 		return
+	}
+	// upload commits: both routes × Add succeeds / fails × a few blob lengths
+	for _, dup := range []string{"0", "1"} {
+		for _, af := range []string{"0", "1"} {
+			for _, n := range []string{"0", "1", "4", "5", "64", "1000"} {
+				toks := []string{"dup=" + dup, "addfail=" + af, "len=" + n}
+				if pp := verifh.Protect(func() { c10oCommit(tr, toks) }); pp != "" {
+					tr.PropFail("panic", verifh.Str(pp))
+				}
+				tr.Count("commit_cases", 1)
+			}
+		}
 	}
 	// exhaustive: expired × owns × persist sidecar × every task outcome list up to length 3 (4 in thorough)
 	var lists [][]string
